@@ -236,4 +236,5 @@ func Run(c *hx.Ctx) {
 	runPart3(c) // kind fz (c17r5.go)
 	runPart2(c) // kinds rw, rd, rt (c17b.go)
 	runPart4(c) // kind hw (c17r6.go)
+	runPart5(c) // kinds rp, re (c17r9.go)
 }
